@@ -96,7 +96,7 @@ Proof. exact permissive_both. Qed.
 Print Assumptions C10_permissive_both.
 
 (* Full statement for ambient — "the converted policies reject unauthenticated peers on exactly the STRICT
-   ports" — is FALSE of the faithful model (and of /repo: the harness runs these witnesses against the real
+   ports" — is FALSE of the faithful model (and of /repo: the harness runs the K9 witness against the real
    PolicyCollections / buildWorkloadPolicies). *)
 Theorem C10_ambient_strict_ports_refuted :
   exists root all wl_ns labels port,
@@ -112,29 +112,31 @@ Theorem C10_ambient_K2_repaired :
 Proof. exact (proj2 k2_repaired). Qed.
 Print Assumptions C10_ambient_K2_repaired.
 
-(* the three confirmed defect families that remain, each with its minimal witness *)
-Theorem C10_ambient_disable_port_refuted :
-  effective_mode 0 dis_world 1 w_lbl 8080 = MDisable /\ ambient_denies 0 dis_world 1 w_lbl false 8080 = true.
-Proof. exact dis_refutes. Qed.
-Print Assumptions C10_ambient_disable_port_refuted.
+(* former findings, repaired by /repo 24c83bf and 45faab8: the witnesses now behave as the property says *)
+Theorem C10_ambient_disable_port_repaired :
+  effective_mode 0 dis_world 1 w_lbl 8080 = MDisable /\ ambient_denies 0 dis_world 1 w_lbl false 8080 = false /\
+  effective_mode 0 dis_world 1 w_lbl 80 = MStrict /\ ambient_denies 0 dis_world 1 w_lbl false 80 = true.
+Proof. exact dis_repaired. Qed.
+Print Assumptions C10_ambient_disable_port_repaired.
 
-Theorem C10_ambient_unset_ns_refuted :
-  effective_mode 0 unsetns_world 1 w_lbl 80 = MStrict /\ ambient_denies 0 unsetns_world 1 w_lbl false 80 = false.
-Proof. exact unsetns_refutes. Qed.
-Print Assumptions C10_ambient_unset_ns_refuted.
+Theorem C10_ambient_unset_ns_repaired :
+  effective_mode 0 unsetns_world 1 w_lbl 80 = MStrict /\ ambient_denies 0 unsetns_world 1 w_lbl false 80 = true /\
+  effective_mode 0 unsetns_world 1 w_lbl 8080 = MPermissive /\ ambient_denies 0 unsetns_world 1 w_lbl false 8080 = false.
+Proof. exact unsetns_repaired. Qed.
+Print Assumptions C10_ambient_unset_ns_repaired.
 
+(* the remaining confirmed defect (K9), with its minimal witness *)
 Theorem C10_ambient_K9_refuted :
   effective_mode 0 k9_world 1 w_lbl 80 = MStrict /\ ambient_denies 0 k9_world 1 w_lbl false 80 = false.
 Proof. exact k9_refutes. Qed.
 Print Assumptions C10_ambient_K9_refuted.
 
-(* PARTIAL (bound in the statement): for one workload policy under any namespace/mesh policy (nil selectors),
-   every port map over the keys {80,443,8080} and every probed port, outside the two defect conditions on
-   the winning policies, the ambient policies reject an unauthenticated peer iff the effective mode is STRICT,
-   and never reject an authenticated one. *)
+(* PARTIAL (bound in the statement, no excluded condition any more): for one workload policy under any
+   namespace/mesh policy without selector, every port map over the keys {80,443,8080} and every probed port, the
+   ambient policies reject an unauthenticated peer iff the effective mode is STRICT, and never reject an
+   authenticated one. *)
 Theorem C10_ambient_strict_ports_partial : forall rm nm wm ports port,
   In rm opt_modes -> In nm opt_modes -> In ports (port_maps bound_keys) -> In port bound_probes ->
-  defect rm nm wm ports = false ->
   ambient_denies 0 (world3 rm nm wm ports) 1 w_lbl false port =
     mode_eqb (effective_mode 0 (world3 rm nm wm ports) 1 w_lbl port) MStrict /\
   ambient_denies 0 (world3 rm nm wm ports) 1 w_lbl true port = false.
@@ -143,7 +145,6 @@ Print Assumptions C10_ambient_strict_ports_partial.
 
 (* non-vacuity: the hypotheses of the partial theorem are satisfiable, with a STRICT and a non-STRICT outcome *)
 Example C10_partial_nonvacuous :
-  defect (Some MStrict) None MUnset [(8080%N, MPermissive)] = false /\
   In [(8080%N, MPermissive)] (port_maps bound_keys) /\
   ambient_denies 0 (world3 (Some MStrict) None MUnset [(8080%N, MPermissive)]) 1 w_lbl false 80 = true /\
   ambient_denies 0 (world3 (Some MStrict) None MUnset [(8080%N, MPermissive)]) 1 w_lbl false 8080 = false.
